@@ -185,7 +185,7 @@ def r5_identifier(cx):
     rd = [a for a in walk_body(fn.body) if isinstance(a, ast.Assign) and U(a.targets[0]) == "machine_id" and "read()" in U(a.value)]
     ok = len(rd) == 1
     if ok:
-        g = set(guard_texts(rd[0]))
+        g = feat.expand_pure_helpers(m, set(guard_texts(rd[0])))
         ok = ("os.path.isfile(%s)" % dest, True) in g and (new, False) in g
         w = enclosing(rd[0], ast.With)
         ok = ok and w is not None and "open(%s, 'r')" % dest in U(w.items[0].context_expr)
